@@ -21,6 +21,7 @@ from asyncio.exceptions import CancelledError
 from asyncio.locks import Event, Semaphore
 from asyncio.tasks import Task, create_task, gather
 from contextlib import suppress
+from inspect import CORO_CREATED, getcoroutinestate
 from math import inf
 from typing import (
     TYPE_CHECKING,
@@ -103,6 +104,8 @@ class BaseTaskPool:
 
         # Synchronisation primitives necessary for managing the pool.
         self._enough_room: Semaphore = Semaphore()
+        # Cancellation requests for tasks that have not had their first step:
+        self._cancel_on_start: Dict[int, Dict[str, str]] = {}
         self._task_groups: Dict[str, TaskGroupRegister] = {}
 
         # Map task group names to sets of meta tasks:
@@ -355,6 +358,10 @@ class BaseTaskPool:
         """
         log.info("Started %s", self._task_name(task_id))
         try:
+            if task_id in self._cancel_on_start:
+                if iscoroutine(awaitable):
+                    awaitable.close()
+                raise CancelledError(*self._cancel_on_start.pop(task_id).values())
             return await awaitable
         except CancelledError:
             await self._task_cancellation(
@@ -420,6 +427,19 @@ class BaseTaskPool:
                 name=self._task_name(task_id),
             )
         return task_id
+
+    def _cancel_task(self, task_id: int, task: Task[Any], **kw: Any) -> None:
+        """
+        Cancels a pool task; waits for its first step, if it has not run yet.
+
+        Cancelling a task before its first step would throw the exception into
+        :meth:`_task_wrapper` before it could set up its clean-up, so in that
+        case the cancellation is delivered by the wrapper itself.
+        """
+        if getcoroutinestate(task.get_coro()) == CORO_CREATED:
+            self._cancel_on_start[task_id] = kw
+        else:
+            task.cancel(**kw)
 
     def _get_running_task(self, task_id: int) -> Task[Any]:
         """
@@ -494,8 +514,8 @@ class BaseTaskPool:
         """
         tasks = [self._get_running_task(task_id) for task_id in task_ids]
         kw = self._get_cancel_kw(msg)
-        for task in tasks:
-            task.cancel(**kw)
+        for task_id, task in zip(task_ids, tasks):
+            self._cancel_task(task_id, task, **kw)
 
     def _cancel_group_meta_tasks(self, group_name: str) -> None:
         """Cancels and forgets all meta tasks associated with the task group."""
@@ -534,10 +554,12 @@ class BaseTaskPool:
         """
         self._cancel_group_meta_tasks(group_name)
         while group_reg:
+            task_id = group_reg.pop()
             try:
-                self._tasks_running[group_reg.pop()].cancel(**cancel_kw)
+                task = self._tasks_running[task_id]
             except KeyError:
                 continue
+            self._cancel_task(task_id, task, **cancel_kw)
         log.debug("%s cancelled tasks from group %s", str(self), group_name)
 
     def cancel_group(self, group_name: str, msg: str | None = None) -> None:
